@@ -4,6 +4,7 @@
   `loadBodyIO` under an arbitrary schedule, and their fault-free corollaries.
 -/
 import Grenad.Model.IO
+import Grenad.Model.Sorter
 
 namespace Grenad
 
@@ -335,7 +336,7 @@ theorem writeMany_count_inv (sch : List WResp) (bufs : List Bytes) (s : Sink)
 
 /-! ### `readExact` -/
 
-theorem acc_step {α} (l acc : List α) (p m p' : Nat) (h : p + m ≤ p') :
+theorem io_acc_step {α} (l acc : List α) (p m p' : Nat) (h : p + m ≤ p') :
     (acc ++ (l.drop p).take m) ++ (l.drop (p + m)).take (p' - (p + m)) =
       acc ++ (l.drop p).take (p' - p) := by
   have e : p' - p = m + (p' - (p + m)) := by omega
@@ -439,7 +440,7 @@ theorem readExact_char (data : Bytes) : ∀ (sch : List RResp) (n pos : Nat) (ac
           have hm1 : 1 ≤ m ∧ m ≤ want + 1 ∧ m ≤ data.length - pos := by omega
           obtain ⟨used, hu, ho, hp, hc⟩ := ih _ _ _ _ _ _ _ h
           refine ⟨.serve k :: used, RFaultFree.cons_iff.mpr ⟨by intro t; simp, hu⟩, ?_, by omega, ?_⟩
-          · rw [ho, acc_step _ _ _ _ _ hp]
+          · rw [ho, io_acc_step _ _ _ _ _ hp]
           · rcases hc with ⟨e, hs, h1, h2⟩ | ⟨e, hs, h1, h2⟩ | ⟨t, e, hs, h1, h2⟩
             · exact .inl ⟨e, by rw [hs]; rfl, by omega, by omega⟩
             · exact .inr (.inl ⟨e, by rw [hs]; rfl, by omega, by omega⟩)
@@ -579,7 +580,7 @@ theorem readToEndTake_char (data : Bytes) : ∀ (sch : List RResp) (limit pos : 
           have hm1 : 1 ≤ m ∧ m ≤ limit + 1 ∧ m ≤ data.length - pos := by omega
           obtain ⟨used, hu, ho, hp, hc⟩ := ih _ _ _ _ _ _ _ h
           refine ⟨.serve k :: used, RFaultFree.cons_iff.mpr ⟨by intro t; simp, hu⟩, ?_, by omega, ?_⟩
-          · rw [ho, acc_step _ _ _ _ _ hp]
+          · rw [ho, io_acc_step _ _ _ _ _ hp]
           · rcases hc with ⟨e, hs, h1⟩ | ⟨t, e, hs, h1⟩
             · exact .inl ⟨e, by rw [hs]; rfl, by omega⟩
             · exact .inr ⟨t, e, by rw [hs]; rfl, by omega⟩
@@ -712,12 +713,52 @@ theorem loadBlockIO_ff {sch : List RResp} (hff : RFaultFree sch) (cd : Codec) (f
       simp only [Option.bind_some]
       cases Block.parse raw <;> rfl
 
+/-- Under an *arbitrary* schedule a schedule-driven load either fails or yields the block of
+    the pure `loadBlock`: never another block. -/
+theorem loadBlockIO_le (cd : Codec) (file : Bytes) (off : Nat) (sch : List RResp) (b : Block)
+    (h : loadBlockIO cd file off sch = some b) : loadBlock cd file off = some b := by
+  rcases hr : loadBodyIO file off sch with ⟨res, rest, err⟩
+  obtain ⟨used, hu, hc⟩ := loadBodyIO_char file off sch _ _ _ hr
+  unfold loadBlockIO at h
+  rw [hr] at h
+  simp only at h
+  rcases hc with ⟨_, _, hl, hres⟩ | ⟨_, hres, _⟩ | ⟨t, _, hres, _⟩
+  · rw [hres] at h
+    unfold loadBlock loadBlockLen slice?
+    simp only [hl, if_true]
+    simp only [Option.bind_some] at h
+    cases hd : cd.decompress ((file.drop (off + 8)).take (beVal ((file.drop off).take 8))) with
+    | none => rw [hd] at h; cases h
+    | some raw =>
+      rw [hd] at h
+      simp only [Option.bind_some] at h
+      simp only [h, Option.map_some]
+  · rw [hres] at h; cases h
+  · rw [hres] at h; cases h
+
+/-- The loader of a reader whose every load goes through the I/O layer; `sched off` is the
+    schedule the source applies while block `off` is loaded. -/
+def ioLoader (cd : Codec) (file : Bytes) (sched : Nat → List RResp) (off : Nat) :
+    Option BlockCursor :=
+  (loadBlockIO cd file off (sched off)).map BlockCursor.ofBlock
+
+theorem ioLoader_le (cd : Codec) (file : Bytes) (sched : Nat → List RResp) (off : Nat)
+    (b : BlockCursor) (h : ioLoader cd file sched off = some b) :
+    loadCursor cd file off = some b := by
+  unfold ioLoader at h
+  cases hb : loadBlockIO cd file off (sched off) with
+  | none => rw [hb] at h; cases h
+  | some blk =>
+    rw [hb] at h
+    rw [loadCursor, loadBlockIO_le cd file off _ _ hb]
+    exact h
+
 /-! ### The cursor under a loader that never fails -/
 
 section CursorTotal
 variable {β : Type} (ops : BlockOps β) (load : Nat → Option β)
 
-theorem initialIndex_ne_none (hl : ∀ off, (load off).isSome) (mov : Mov) :
+theorem initialIndex_ne_none_of_total (hl : ∀ off, (load off).isSome) (mov : Mov) :
     ∀ (d jump : Nat) (acc : List (Nat × β)) (log : List Nat),
       RC.initialIndex ops load mov d jump acc log ≠ none := by
   intro d
@@ -735,7 +776,7 @@ theorem initialIndex_ne_none (hl : ∀ off, (load off).isSome) (mov : Mov) :
       · exact ih _ _ _
       · simp
 
-theorem iterLevels_ne_none (hl : ∀ off, (load off).isSome) (mov : Mov) :
+theorem iterLevels_ne_none_of_total (hl : ∀ off, (load off).isSome) (mov : Mov) :
     ∀ (inner : List (Nat × β)) (jump : Nat) (log : List Nat),
       RC.iterLevels ops load mov jump inner log ≠ none := by
   intro inner
@@ -762,7 +803,7 @@ theorem iterLevels_ne_none (hl : ∀ off, (load off).isSome) (mov : Mov) :
       | none => exact absurd hi (ih _ _)
       | some x => simp
 
-theorem recurLevels_ne_none (hl : ∀ off, (load off).isSome) (fix : Bool) (mov : Mov) :
+theorem recurLevels_ne_none_of_total (hl : ∀ off, (load off).isSome) (fix : Bool) (mov : Mov) :
     ∀ (lv : List (Nat × β)) (log : List Nat), RC.recurLevels ops load fix mov lv log ≠ none := by
   intro lv
   induction lv with
@@ -788,22 +829,22 @@ theorem recurLevels_ne_none (hl : ∀ off, (load off).isSome) (fix : Bool) (mov 
           | none => have := hl (offOf e); simp [hj] at this
           | some nc => simp
 
-theorem iterIndex_ne_none (hl : ∀ off, (load off).isSome) (mov : Mov) (c : RC β) :
+theorem iterIndex_ne_none_of_total (hl : ∀ off, (load off).isSome) (mov : Mov) (c : RC β) :
     RC.iterIndex ops load mov c ≠ none := by
   unfold RC.iterIndex
   cases c.inner with
   | some inner =>
     simp only
     cases hi : RC.iterLevels ops load mov c.base inner c.log with
-    | none => exact absurd hi (iterLevels_ne_none ops load hl mov _ _ _)
+    | none => exact absurd hi (iterLevels_ne_none_of_total ops load hl mov _ _ _)
     | some x => obtain ⟨a, b, d⟩ := x; simp only; split <;> simp
   | none =>
     simp only
     cases hi : RC.initialIndex ops load mov (c.levels + 1) c.base [] c.log with
-    | none => exact absurd hi (initialIndex_ne_none ops load hl mov _ _ _ _)
+    | none => exact absurd hi (initialIndex_ne_none_of_total ops load hl mov _ _ _ _)
     | some x => simp
 
-theorem recurIndex_ne_none (hl : ∀ off, (load off).isSome) (fix : Bool) (mov : Mov) (c : RC β) :
+theorem recurIndex_ne_none_of_total (hl : ∀ off, (load off).isSome) (fix : Bool) (mov : Mov) (c : RC β) :
     RC.recurIndex ops load fix mov c ≠ none := by
   unfold RC.recurIndex
   have key : ∀ c1 : RC β, (match c1.inner with
@@ -818,23 +859,578 @@ theorem recurIndex_ne_none (hl : ∀ off, (load off).isSome) (fix : Bool) (mov :
     | some inner =>
       simp only
       cases hi : RC.recurLevels ops load fix mov inner.reverse c1.log with
-      | none => exact absurd hi (recurLevels_ne_none ops load hl fix mov _ _)
+      | none => exact absurd hi (recurLevels_ne_none_of_total ops load hl fix mov _ _)
       | some x => simp
   cases c.inner with
   | some inner => exact key c
   | none =>
     simp only
     cases hi : RC.initialIndex ops load mov (c.levels + 1) c.base [] c.log with
-    | none => exact absurd hi (initialIndex_ne_none ops load hl mov _ _ _ _)
+    | none => exact absurd hi (initialIndex_ne_none_of_total ops load hl mov _ _ _ _)
     | some x => exact key _
 
-theorem enter_ne_none (hl : ∀ off, (load off).isSome) (c : RC β) (e : Entry) :
+theorem enter_ne_none_of_total (hl : ∀ off, (load off).isSome) (c : RC β) (e : Entry) :
     RC.enter load c e ≠ none := by
   unfold RC.enter
   cases hj : load (offOf e) with
   | none => have := hl (offOf e); simp [hj] at this
   | some b => simp
 
+theorem first_ne_err_of_total (hl : ∀ off, (load off).isSome) (c : RC β) :
+    (RC.first ops load c).2 ≠ .err := by
+  unfold RC.first
+  cases hi : RC.iterIndex ops load .first c with
+  | none => exact absurd hi (iterIndex_ne_none_of_total ops load hl _ _)
+  | some x =>
+    obtain ⟨c1, r⟩ := x
+    cases r with
+    | none => simp
+    | some e =>
+      simp only
+      cases he : RC.enter load c1 e with
+      | none => exact absurd he (enter_ne_none_of_total load hl _ _)
+      | some y => simp
+
+theorem last_ne_err_of_total (hl : ∀ off, (load off).isSome) (c : RC β) :
+    (RC.last ops load c).2 ≠ .err := by
+  unfold RC.last
+  cases hi : RC.iterIndex ops load .last c with
+  | none => exact absurd hi (iterIndex_ne_none_of_total ops load hl _ _)
+  | some x =>
+    obtain ⟨c1, r⟩ := x
+    cases r with
+    | none => simp
+    | some e =>
+      simp only
+      cases he : RC.enter load c1 e with
+      | none => exact absurd he (enter_ne_none_of_total load hl _ _)
+      | some y => simp
+
+theorem ge_ne_err_of_total (hl : ∀ off, (load off).isSome) (q : Bytes) (c : RC β) :
+    (RC.ge ops load q c).2 ≠ .err := by
+  unfold RC.ge
+  cases hi : RC.iterIndex ops load (.ge q) c with
+  | none => exact absurd hi (iterIndex_ne_none_of_total ops load hl _ _)
+  | some x =>
+    obtain ⟨c1, r⟩ := x
+    cases r with
+    | none => simp
+    | some e =>
+      simp only
+      cases he : RC.enter load c1 e with
+      | none => exact absurd he (enter_ne_none_of_total load hl _ _)
+      | some y => simp
+
+theorem next_ne_err_of_total (hl : ∀ off, (load off).isSome) (fix : Bool) (c : RC β) :
+    (RC.next ops load fix c).2 ≠ .err := by
+  unfold RC.next
+  cases c.cur with
+  | none => exact first_ne_err_of_total ops load hl c
+  | some b =>
+    simp only
+    rcases hn : ops.next b with ⟨b', r⟩
+    cases r with
+    | some e => simp
+    | none =>
+      simp only
+      cases hi : RC.recurIndex ops load fix .next (RC.withCur c b') with
+      | none => exact absurd hi (recurIndex_ne_none_of_total ops load hl _ _ _)
+      | some x =>
+        obtain ⟨c1, r⟩ := x
+        cases r with
+        | none => simp
+        | some e =>
+          simp only
+          cases he : RC.enter load c1 e with
+          | none => exact absurd he (enter_ne_none_of_total load hl _ _)
+          | some y => simp
+
+theorem prev_ne_err_of_total (hl : ∀ off, (load off).isSome) (fix : Bool) (c : RC β) :
+    (RC.prev ops load fix c).2 ≠ .err := by
+  unfold RC.prev
+  cases c.cur with
+  | none => exact last_ne_err_of_total ops load hl c
+  | some b =>
+    simp only
+    rcases hn : ops.prev b with ⟨b', r⟩
+    cases r with
+    | some e => simp
+    | none =>
+      simp only
+      cases hi : RC.recurIndex ops load fix .prev (RC.withCur c b') with
+      | none => exact absurd hi (recurIndex_ne_none_of_total ops load hl _ _ _)
+      | some x =>
+        obtain ⟨c1, r⟩ := x
+        cases r with
+        | none => simp
+        | some e =>
+          simp only
+          cases he : RC.enter load c1 e with
+          | none => exact absurd he (enter_ne_none_of_total load hl _ _)
+          | some y => simp
+
+theorem le_ne_err_of_total (hl : ∀ off, (load off).isSome) (fix : Bool) (q : Bytes) (c : RC β) :
+    (RC.le ops load fix q c).2 ≠ .err := by
+  unfold RC.le
+  have hg := ge_ne_err_of_total ops load hl q c
+  rcases hge : RC.ge ops load q c with ⟨c1, r⟩
+  rw [hge] at hg
+  cases r with
+  | err => exact absurd rfl hg
+  | ok o =>
+    cases o with
+    | some kv =>
+      obtain ⟨k, v⟩ := kv
+      simp only
+      split
+      · simp
+      · exact prev_ne_err_of_total ops load hl fix c1
+    | none =>
+      simp only
+      have hl' := last_ne_err_of_total ops load hl c1
+      rcases hla : RC.last ops load c1 with ⟨c2, r2⟩
+      rw [hla] at hl'
+      cases r2 with
+      | err => exact absurd rfl hl'
+      | ok o2 => simp
+
+theorem eq_ne_err_of_total (hl : ∀ off, (load off).isSome) (q : Bytes) (c : RC β) :
+    (RC.eq ops load q c).2 ≠ .err := by
+  unfold RC.eq
+  have hg := ge_ne_err_of_total ops load hl q c
+  rcases hge : RC.ge ops load q c with ⟨c1, r⟩
+  rw [hge] at hg
+  cases r with
+  | err => exact absurd rfl hg
+  | ok o => simp
+
+/-- A loader that never fails never makes a cursor operation fail. -/
+theorem step_ne_err_of_total (hl : ∀ off, (load off).isSome) (fix : Bool) (c : RC β) (op : Op) :
+    (RC.step ops load fix c op).2 ≠ .err := by
+  cases op with
+  | first => exact first_ne_err_of_total ops load hl c
+  | last => exact last_ne_err_of_total ops load hl c
+  | next => exact next_ne_err_of_total ops load hl fix c
+  | prev => exact prev_ne_err_of_total ops load hl fix c
+  | ge q => exact ge_ne_err_of_total ops load hl q c
+  | le q => exact le_ne_err_of_total ops load hl fix q c
+  | eq q => exact eq_ne_err_of_total ops load hl q c
+  | reset => simp [RC.step]
+  | current => simp [RC.step]
+
 end CursorTotal
+
+/-! ### The cursor under a loader that succeeds more often
+
+`load ≤ load'`: wherever `load` succeeds `load'` returns the same block.  Every result obtained
+without error under `load` is obtained identically under `load'`: a result never depends on a
+load that failed, so an error can only be caused by a load the operation really attempted. -/
+
+section CursorMono
+variable {β : Type} (ops : BlockOps β) (load load' : Nat → Option β)
+
+theorem initialIndex_load_mono (hm : ∀ off b, load off = some b → load' off = some b) (mov : Mov) :
+    ∀ (d jump : Nat) (acc : List (Nat × β)) (log : List Nat) x,
+      RC.initialIndex ops load mov d jump acc log = some x →
+      RC.initialIndex ops load' mov d jump acc log = some x := by
+  intro d
+  induction d with
+  | zero => intro jump acc log x h; simpa [RC.initialIndex] using h
+  | succ d ih =>
+    intro jump acc log x h
+    unfold RC.initialIndex at h ⊢
+    cases hj : load jump with
+    | none => rw [hj] at h; cases h
+    | some c =>
+      rw [hj] at h; rw [hm _ _ hj]
+      simp only at h ⊢
+      cases hr : (ops.apply mov c).snd with
+      | none => rw [hr] at h; exact h
+      | some e => rw [hr] at h; exact ih _ _ _ _ h
+
+theorem iterLevels_load_mono (hm : ∀ off b, load off = some b → load' off = some b) (mov : Mov) :
+    ∀ (inner : List (Nat × β)) (jump : Nat) (log : List Nat) x,
+      RC.iterLevels ops load mov jump inner log = some x →
+      RC.iterLevels ops load' mov jump inner log = some x := by
+  intro inner
+  induction inner with
+  | nil => intro jump log x h; simpa [RC.iterLevels] using h
+  | cons p rest ih =>
+    intro jump log x h
+    obtain ⟨off, c⟩ := p
+    unfold RC.iterLevels at h ⊢
+    have hre : ∀ y, (if jump ≠ off then (load jump).map (fun c' => (jump, c', jump :: log))
+        else some (off, c, log)) = some y →
+        (if jump ≠ off then (load' jump).map (fun c' => (jump, c', jump :: log))
+        else some (off, c, log)) = some y := by
+      intro y hy
+      split at hy
+      · rename_i hne
+        cases hj : load jump with
+        | none => rw [hj] at hy; cases hy
+        | some c0 => rw [hj] at hy; rw [if_pos hne, hm _ _ hj]; exact hy
+      · rename_i hne
+        rw [if_neg hne]; exact hy
+    cases hy : (if jump ≠ off then (load jump).map (fun c' => (jump, c', jump :: log))
+        else some (off, c, log)) with
+    | none => simp only [hy] at h; cases h
+    | some y =>
+      obtain ⟨off', c', log'⟩ := y
+      simp only [hy] at h
+      simp only [hre _ hy]
+      cases hr : (ops.apply mov c').snd with
+      | none => rw [hr] at h; exact h
+      | some e =>
+        rw [hr] at h
+        simp only at h ⊢
+        cases hi : RC.iterLevels ops load mov (offOf e) rest log' with
+        | none => rw [hi] at h; cases h
+        | some z => rw [hi] at h; rw [ih _ _ _ hi]; exact h
+
+theorem recurLevels_load_mono (hm : ∀ off b, load off = some b → load' off = some b) (fix : Bool)
+    (mov : Mov) : ∀ (lv : List (Nat × β)) (log : List Nat) x,
+      RC.recurLevels ops load fix mov lv log = some x →
+      RC.recurLevels ops load' fix mov lv log = some x := by
+  intro lv
+  induction lv with
+  | nil => intro log x h; simpa [RC.recurLevels] using h
+  | cons p parents ih =>
+    intro log x h
+    obtain ⟨off, c⟩ := p
+    unfold RC.recurLevels at h ⊢
+    simp only at h ⊢
+    cases hr : (ops.apply mov c).snd with
+    | some e => rw [hr] at h; exact h
+    | none =>
+      rw [hr] at h
+      simp only at h ⊢
+      cases hi : RC.recurLevels ops load fix mov parents log with
+      | none => rw [hi] at h; cases h
+      | some z =>
+        rw [hi] at h; rw [ih _ _ hi]
+        obtain ⟨parents', r, log'⟩ := z
+        cases r with
+        | none => exact h
+        | some e =>
+          simp only at h ⊢
+          cases hj : load (offOf e) with
+          | none => rw [hj] at h; cases h
+          | some nc => rw [hj] at h; rw [hm _ _ hj]; exact h
+
+theorem iterIndex_load_mono (hm : ∀ off b, load off = some b → load' off = some b) (mov : Mov)
+    (c : RC β) x (h : RC.iterIndex ops load mov c = some x) :
+    RC.iterIndex ops load' mov c = some x := by
+  unfold RC.iterIndex at h ⊢
+  cases hin : c.inner with
+  | some inner =>
+    rw [hin] at h
+    simp only at h ⊢
+    cases hi : RC.iterLevels ops load mov c.base inner c.log with
+    | none => rw [hi] at h; cases h
+    | some z => rw [hi] at h; rw [iterLevels_load_mono ops load load' hm mov _ _ _ _ hi]; exact h
+  | none =>
+    rw [hin] at h
+    simp only at h ⊢
+    cases hi : RC.initialIndex ops load mov (c.levels + 1) c.base [] c.log with
+    | none => rw [hi] at h; cases h
+    | some z => rw [hi] at h; rw [initialIndex_load_mono ops load load' hm mov _ _ _ _ _ hi]; exact h
+
+theorem recurIndex_load_mono (hm : ∀ off b, load off = some b → load' off = some b) (fix : Bool)
+    (mov : Mov) (c : RC β) x (h : RC.recurIndex ops load fix mov c = some x) :
+    RC.recurIndex ops load' fix mov c = some x := by
+  unfold RC.recurIndex at h ⊢
+  have key : ∀ c1 : RC β, (match c1.inner with
+      | none => some (c1, (none : Option Entry))
+      | some inner =>
+        match RC.recurLevels ops load fix mov inner.reverse c1.log with
+        | none => none
+        | some (rev', r, log) => some ({ c1 with inner := some rev'.reverse, log := log }, r)) = some x →
+      (match c1.inner with
+      | none => some (c1, (none : Option Entry))
+      | some inner =>
+        match RC.recurLevels ops load' fix mov inner.reverse c1.log with
+        | none => none
+        | some (rev', r, log) => some ({ c1 with inner := some rev'.reverse, log := log }, r)) = some x := by
+    intro c1 h1
+    cases hin : c1.inner with
+    | none => rw [hin] at h1; exact h1
+    | some inner =>
+      rw [hin] at h1
+      simp only at h1 ⊢
+      cases hi : RC.recurLevels ops load fix mov inner.reverse c1.log with
+      | none => rw [hi] at h1; cases h1
+      | some z => rw [hi] at h1; rw [recurLevels_load_mono ops load load' hm fix mov _ _ _ hi]; exact h1
+  cases hin : c.inner with
+  | some inner =>
+    rw [hin] at h
+    simp only at h ⊢
+    exact key c h
+  | none =>
+    rw [hin] at h
+    simp only at h ⊢
+    cases hi : RC.initialIndex ops load mov (c.levels + 1) c.base [] c.log with
+    | none => rw [hi] at h; cases h
+    | some z =>
+      rw [hi] at h; rw [initialIndex_load_mono ops load load' hm mov _ _ _ _ _ hi]
+      exact key _ h
+
+theorem enter_load_mono (hm : ∀ off b, load off = some b → load' off = some b) (c : RC β) (e : Entry)
+    x (h : RC.enter load c e = some x) : RC.enter load' c e = some x := by
+  unfold RC.enter at h ⊢
+  cases hj : load (offOf e) with
+  | none => rw [hj] at h; cases h
+  | some b => rw [hj] at h; rw [hm _ _ hj]; exact h
+
+theorem first_load_mono (hm : ∀ off b, load off = some b → load' off = some b) (c : RC β)
+    (h : (RC.first ops load c).2 ≠ .err) : RC.first ops load' c = RC.first ops load c := by
+  unfold RC.first at h ⊢
+  cases hi : RC.iterIndex ops load .first c with
+  | none => rw [hi] at h; exact absurd rfl h
+  | some x =>
+    rw [hi] at h; rw [iterIndex_load_mono ops load load' hm _ _ _ hi]
+    obtain ⟨c1, r⟩ := x
+    cases r with
+    | none => rfl
+    | some e =>
+      simp only at h ⊢
+      cases he : RC.enter load c1 e with
+      | none => rw [he] at h; exact absurd rfl h
+      | some y => rw [enter_load_mono load load' hm _ _ _ he]
+
+theorem last_load_mono (hm : ∀ off b, load off = some b → load' off = some b) (c : RC β)
+    (h : (RC.last ops load c).2 ≠ .err) : RC.last ops load' c = RC.last ops load c := by
+  unfold RC.last at h ⊢
+  cases hi : RC.iterIndex ops load .last c with
+  | none => rw [hi] at h; exact absurd rfl h
+  | some x =>
+    rw [hi] at h; rw [iterIndex_load_mono ops load load' hm _ _ _ hi]
+    obtain ⟨c1, r⟩ := x
+    cases r with
+    | none => rfl
+    | some e =>
+      simp only at h ⊢
+      cases he : RC.enter load c1 e with
+      | none => rw [he] at h; exact absurd rfl h
+      | some y => rw [enter_load_mono load load' hm _ _ _ he]
+
+theorem ge_load_mono (hm : ∀ off b, load off = some b → load' off = some b) (q : Bytes) (c : RC β)
+    (h : (RC.ge ops load q c).2 ≠ .err) : RC.ge ops load' q c = RC.ge ops load q c := by
+  unfold RC.ge at h ⊢
+  cases hi : RC.iterIndex ops load (.ge q) c with
+  | none => rw [hi] at h; exact absurd rfl h
+  | some x =>
+    rw [hi] at h; rw [iterIndex_load_mono ops load load' hm _ _ _ hi]
+    obtain ⟨c1, r⟩ := x
+    cases r with
+    | none => rfl
+    | some e =>
+      simp only at h ⊢
+      cases he : RC.enter load c1 e with
+      | none => rw [he] at h; exact absurd rfl h
+      | some y => rw [enter_load_mono load load' hm _ _ _ he]
+
+theorem next_load_mono (hm : ∀ off b, load off = some b → load' off = some b) (fix : Bool) (c : RC β)
+    (h : (RC.next ops load fix c).2 ≠ .err) : RC.next ops load' fix c = RC.next ops load fix c := by
+  unfold RC.next at h ⊢
+  cases hc : c.cur with
+  | none => rw [hc] at h; exact first_load_mono ops load load' hm c h
+  | some b =>
+    rw [hc] at h
+    simp only at h ⊢
+    rcases hn : ops.next b with ⟨b', r⟩
+    rw [hn] at h
+    cases r with
+    | some e => rfl
+    | none =>
+      simp only at h ⊢
+      cases hi : RC.recurIndex ops load fix .next (RC.withCur c b') with
+      | none => rw [hi] at h; exact absurd rfl h
+      | some x =>
+        rw [hi] at h; rw [recurIndex_load_mono ops load load' hm _ _ _ _ hi]
+        obtain ⟨c1, r⟩ := x
+        cases r with
+        | none => rfl
+        | some e =>
+          simp only at h ⊢
+          cases he : RC.enter load c1 e with
+          | none => rw [he] at h; exact absurd rfl h
+          | some y => rw [enter_load_mono load load' hm _ _ _ he]
+
+theorem prev_load_mono (hm : ∀ off b, load off = some b → load' off = some b) (fix : Bool) (c : RC β)
+    (h : (RC.prev ops load fix c).2 ≠ .err) : RC.prev ops load' fix c = RC.prev ops load fix c := by
+  unfold RC.prev at h ⊢
+  cases hc : c.cur with
+  | none => rw [hc] at h; exact last_load_mono ops load load' hm c h
+  | some b =>
+    rw [hc] at h
+    simp only at h ⊢
+    rcases hn : ops.prev b with ⟨b', r⟩
+    rw [hn] at h
+    cases r with
+    | some e => rfl
+    | none =>
+      simp only at h ⊢
+      cases hi : RC.recurIndex ops load fix .prev (RC.withCur c b') with
+      | none => rw [hi] at h; exact absurd rfl h
+      | some x =>
+        rw [hi] at h; rw [recurIndex_load_mono ops load load' hm _ _ _ _ hi]
+        obtain ⟨c1, r⟩ := x
+        cases r with
+        | none => rfl
+        | some e =>
+          simp only at h ⊢
+          cases he : RC.enter load c1 e with
+          | none => rw [he] at h; exact absurd rfl h
+          | some y => rw [enter_load_mono load load' hm _ _ _ he]
+
+theorem le_load_mono (hm : ∀ off b, load off = some b → load' off = some b) (fix : Bool) (q : Bytes)
+    (c : RC β) (h : (RC.le ops load fix q c).2 ≠ .err) :
+    RC.le ops load' fix q c = RC.le ops load fix q c := by
+  unfold RC.le at h ⊢
+  rcases hge : RC.ge ops load q c with ⟨c1, r⟩
+  rw [hge] at h
+  cases r with
+  | err => exact absurd rfl h
+  | ok o =>
+    have hge' : RC.ge ops load' q c = (c1, .ok o) := by
+      rw [ge_load_mono ops load load' hm q c (by rw [hge]; simp), hge]
+    rw [hge']
+    cases o with
+    | some kv =>
+      obtain ⟨k, v⟩ := kv
+      simp only at h ⊢
+      split
+      · rfl
+      · rename_i hne
+        rw [if_neg hne] at h
+        exact prev_load_mono ops load load' hm fix c1 h
+    | none =>
+      simp only at h ⊢
+      rcases hla : RC.last ops load c1 with ⟨c2, r2⟩
+      rw [hla] at h
+      cases r2 with
+      | err => exact absurd rfl h
+      | ok o2 => rw [last_load_mono ops load load' hm c1 (by rw [hla]; simp), hla]
+
+theorem eq_load_mono (hm : ∀ off b, load off = some b → load' off = some b) (q : Bytes)
+    (c : RC β) (h : (RC.eq ops load q c).2 ≠ .err) :
+    RC.eq ops load' q c = RC.eq ops load q c := by
+  unfold RC.eq at h ⊢
+  rcases hge : RC.ge ops load q c with ⟨c1, r⟩
+  rw [hge] at h
+  cases r with
+  | err => exact absurd rfl h
+  | ok o => rw [ge_load_mono ops load load' hm q c (by rw [hge]; simp), hge]
+
+/-- A cursor operation that succeeds under `load` gives the same state and result under any
+    loader that succeeds at least where `load` does. -/
+theorem step_load_mono (hm : ∀ off b, load off = some b → load' off = some b) (fix : Bool)
+    (c : RC β) (op : Op) (h : (RC.step ops load fix c op).2 ≠ .err) :
+    RC.step ops load' fix c op = RC.step ops load fix c op := by
+  cases op with
+  | first => exact first_load_mono ops load load' hm c h
+  | last => exact last_load_mono ops load load' hm c h
+  | next => exact next_load_mono ops load load' hm fix c h
+  | prev => exact prev_load_mono ops load load' hm fix c h
+  | ge q => exact ge_load_mono ops load load' hm q c h
+  | le q => exact le_load_mono ops load load' hm fix q c h
+  | eq q => exact eq_load_mono ops load load' hm q c h
+  | reset => rfl
+  | current => rfl
+
+end CursorMono
+
+/-! ### The merger: one step, and a merge function that never fails -/
+
+theorem Merger.next_of_pop_none (mf : MergeFn) (m : Merger) (h : heapPop m.heap = none) :
+    Merger.next mf m = (m, .ok none) := by
+  unfold Merger.next; rw [h]
+
+theorem Merger.next_of_pop_some (mf : MergeFn) (m : Merger) (first : MSrc) (h : List MSrc)
+    (hp : heapPop m.heap = some (first, h)) :
+    Merger.next mf m =
+      match mf first.key (first.val :: (popSame first.key (h.length + 1) h []).1.map MSrc.val) with
+      | none =>
+        ({ m with heap := (popSame first.key (h.length + 1) h []).2,
+                  calls := (first.key, first.val ::
+                    (popSame first.key (h.length + 1) h []).1.map MSrc.val) :: m.calls },
+         .mergeErr)
+      | some merged =>
+        ({ heap := (first :: (popSame first.key (h.length + 1) h []).1).foldl advance
+                     (popSame first.key (h.length + 1) h []).2,
+           calls := (first.key, first.val ::
+                    (popSame first.key (h.length + 1) h []).1.map MSrc.val) :: m.calls },
+         .ok (some (first.key, merged))) := by
+  unfold Merger.next; rw [hp]
+  simp only
+  rcases popSame first.key (h.length + 1) h [] with ⟨same, h'⟩
+  simp only
+  cases mf first.key (first.val :: List.map MSrc.val same) <;> rfl
+
+theorem Merger.next_ne_mergeErr (mf : MergeFn) (hmf : ∀ k vs, (mf k vs).isSome) (m : Merger) :
+    (Merger.next mf m).2 ≠ .mergeErr := by
+  cases hp : heapPop m.heap with
+  | none => rw [Merger.next_of_pop_none mf m hp]; simp
+  | some x =>
+    obtain ⟨first, h⟩ := x
+    rw [Merger.next_of_pop_some mf m first h hp]
+    have := hmf first.key (first.val :: (popSame first.key (h.length + 1) h []).1.map MSrc.val)
+    split
+    · rename_i hn; simp [hn] at this
+    · simp
+
+theorem Merger.collect_ne_none (mf : MergeFn) (hmf : ∀ k vs, (mf k vs).isSome) :
+    ∀ (fuel : Nat) (m : Merger) (acc : List Entry), (Merger.collect mf fuel m acc).1 ≠ none := by
+  intro fuel
+  induction fuel with
+  | zero => intro m acc; simp [Merger.collect]
+  | succ fuel ih =>
+    intro m acc
+    unfold Merger.collect
+    have hne := Merger.next_ne_mergeErr mf hmf m
+    rcases hn : Merger.next mf m with ⟨m', r⟩
+    rw [hn] at hne
+    cases r with
+    | mergeErr => exact absurd rfl hne
+    | ok o =>
+      cases o with
+      | none => simp
+      | some e => exact ih _ _
+
+theorem Merger.run_ne_none (mf : MergeFn) (hmf : ∀ k vs, (mf k vs).isSome)
+    (sources : List (List Entry)) : (Merger.run mf sources).1 ≠ none :=
+  Merger.collect_ne_none mf hmf _ _ _
+
+/-! ### The sorter: where its error values come from -/
+
+theorem mergeGroups_ne_none (mf : MergeFn) (hmf : ∀ k vs, (mf k vs).isSome) :
+    ∀ (l : List Entry) (cur : Option (Bytes × List Bytes)) (out : List Entry)
+      (calls : List (Bytes × List Bytes)), Sorter.mergeGroups mf l cur out calls ≠ none := by
+  intro l
+  induction l with
+  | nil =>
+    intro cur out calls
+    cases cur with
+    | none => simp [Sorter.mergeGroups]
+    | some p =>
+      obtain ⟨k, vs⟩ := p
+      have := hmf k vs
+      cases hm : mf k vs with
+      | none => simp [hm] at this
+      | some m => simp [Sorter.mergeGroups, hm]
+  | cons e rest ih =>
+    intro cur out calls
+    obtain ⟨k, v⟩ := e
+    cases cur with
+    | none => rw [Sorter.mergeGroups]; exact ih _ _ _
+    | some p =>
+      obtain ⟨ck, vs⟩ := p
+      rw [Sorter.mergeGroups]
+      split
+      · exact ih _ _ _
+      · have := hmf ck vs
+        cases hm : mf ck vs with
+        | none => simp [hm] at this
+        | some m => exact ih _ _ _
 
 end Grenad
